@@ -30,14 +30,14 @@ Proof.
   - assert (E1 : arg = 0) by lia.
     exists 18%nat. eexists. split.
     + cgo 0%nat. cgo 1%nat. cgo 2%nat. cgo 3%nat. cgo 4%nat. cgo 5%nat. cgo 6%nat.
-      fold a0 a1 a3 a4 m3 arg. rewrite R0, E1. change ((0 - 0 - 0) mod 65536 =? 0) with true.
+      fold a0 a1 a3 a4 m3 arg. rewrite R0, E1. zeval.
       cgo 7%nat. cgo 8%nat. cgo 9%nat. rewrite (set_value (base + 16)) by lia.
       cgo 16%nat. cgo 17%nat. cgo 18%nat. cgo 19%nat. cgo 20%nat. cgo 21%nat. cgo 22%nat. cgo 23%nat. reflexivity.
     + cbn [cr cpc cmem]. cbn [Z.eqb Pos.eqb]. fold a0 a1 a3 a4 m3. repeat split; try reflexivity.
       * Z.to_euclidean_division_equations; lia.
       * intros j Hj. repeat match goal with |- context [j =? ?x] => destruct (j =? x) eqn:?; try lia end; try reflexivity.
   - assert (N1 : (arg - r 0 - 0) mod 65536 =? 0 = false).
-    { rewrite R0. replace (arg - 0 - 0) with arg by lia. rewrite Z.mod_small by lia. exact Z1. }
+    { rewrite R0, !Z.sub_0_r, Z.mod_small by lia. exact Z1. }
     exists 21%nat. eexists. split.
     + cgo 0%nat. cgo 1%nat. cgo 2%nat. cgo 3%nat. cgo 4%nat. cgo 5%nat. cgo 6%nat.
       fold a0 a1 a3 a4 m3 arg. rewrite N1.
